@@ -343,22 +343,7 @@ def run(ck, F):
         ck.violation("R2", "binding-alternatives", ins[0][0], f"the prefix table is only ever filled with {sorted(kinds)} entries: a declared prefix must be bound to the "
                      f"registry's entry for its URI when there is one and to a new Namespace otherwise")
     ck.floor("R2", "prefix table insertions", len(ins), 1)
-    # a document's prefix table holds only its own declarations (plus, for the importer, what `extend` merges in afterwards)
-    n_w = 0
-    for (fn, site, how, bb, node) in scans.field_writers(F.lib, "namespace_lookup"):
-        if "yaserde_tests" in fn:
-            continue
-        n_w += 1
-        short = fn.rsplit("::", 1)[-1]
-        if fn.endswith("RustDocument::add_namespace_reference") and how.endswith("::insert"):
-            ck.ok("R2", f"writer:{short}:insert", site, "prefix table written by add_namespace_reference (own declaration)", fn=short)
-        elif fn.endswith("RustDocument::extend") or fn.endswith("RustDocument::empty"):
-            ck.ok("R2", f"writer:{short}", site, f"prefix table written in {short} (merge into the importer / initialisation)", fn=short)
-        else:
-            ck.violation("R2", f"writer:{short}:{how.rsplit('::', 1)[-1]}", site,
-                         f"{fn} writes the prefix table with `{how.rsplit('::', 1)[-1]}`: bindings that are not declarations of the document being read "
-                         f"enter its prefix table, and (because a prefix already in the table is not re-bound) its own xmlns declarations can be ignored", fn=short)
-    ck.floor("R2", "writers of the prefix table", n_w, 2)
+    rule_prefix_table_writers(ck, F)
     # ---- R3 / R4: by-name selections
     live = scans.api_reachable(F.lib)
     n_sel = 0
@@ -506,8 +491,20 @@ def run(ck, F):
         else:
             ck.violation("R4", f"{short}:kind-ignored", fb["span"],
                          f"{fname} selects by name (and namespace) only: a reference can bind to a component of another kind that carries the same name", fn=short)
+            # the finding recorded for the pinned tree is about the kinds the registry held then — types (simple, complex) and
+            # elements; a further kind of named component entering the same registry is a further way for a reference to bind wrongly
+            nk = _named_kinds(F, B.local_ty(0))
+            if nk is None or nk > CONFIRMED_NAMED_KINDS:
+                ck.violation("R4", f"{short}:kind-ignored:more-kinds", fb["span"],
+                             f"{fname} selects by name (and namespace) only, and what it selects from holds "
+                             f"{'an unknown number of' if nk is None else nk} kinds of named components ({CONFIRMED_NAMED_KINDS} when the finding was recorded: "
+                             f"simple types, complex types, elements): a reference to a type can now also bind to a component of the added kind that "
+                             f"carries the same name (an attribute group `Audit` declared before the complex type `Audit`)", fn=short)
     ck.floor("R3", "by-name selection functions", n_sel, 3)
     rule_global_components_only(ck, F)
+    # .. and a lookup finds a component by its name, not by a position in the list of components (shared with C02.R5)
+    from rules import c02 as C02_
+    C02_.rule_components_by_name(ck, F, rule="R3")
     rule_type_refs_qualified(ck, F)
     # a `ref` member names its target through the reference (C01.R4 evaluates what type such a member gets)
     from rules import c01 as C01
@@ -710,3 +707,70 @@ def _registry_entry_for(nf, param):
     on_elem = [x for x in sides if x == ("field", el, "namespace")]
     on_param = [x for x in sides if any(r == ("param", param) for r in og.nf_roots(x)) and el not in [x]]
     return len(on_elem) == 1 and len(on_param) >= 1
+
+
+def rule_prefix_table_writers(ck, F, rule="R2"):
+    """A document's prefix table holds only its own declarations (plus, for the importer, what `extend` merges in afterwards): a
+    prefix means what the XML document that uses it declares. Every writer of the table is judged, and every construction of a
+    document: the table it starts with is an empty one, not the table of another document (an imported file that starts from its
+    importer's bindings resolves its own `tns:` names in the importer's namespace, because a prefix already bound is not re-bound)."""
+    n_w = 0
+    for (fn, site, how, bb, node) in scans.field_writers(F.lib, "namespace_lookup"):
+        if "yaserde_tests" in fn:
+            continue
+        n_w += 1
+        short = fn.rsplit("::", 1)[-1]
+        if fn.endswith("RustDocument::add_namespace_reference") and how.endswith("::insert"):
+            ck.ok(rule, f"writer:{short}:insert", site, "prefix table written by add_namespace_reference (own declaration)", fn=short)
+        elif fn.endswith("RustDocument::extend") or fn.endswith("RustDocument::empty"):
+            ck.ok(rule, f"writer:{short}", site, f"prefix table written in {short} (merge into the importer / initialisation)", fn=short)
+        else:
+            ck.violation(rule, f"writer:{short}:{how.rsplit('::', 1)[-1]}", site,
+                         f"{fn} writes the prefix table with `{how.rsplit('::', 1)[-1]}`: bindings that are not declarations of the document being read "
+                         f"enter its prefix table, and (because a prefix already in the table is not re-bound) its own xmlns declarations can be ignored", fn=short)
+    ck.floor(rule, "writers of the prefix table", n_w, 2)
+    n_c = 0
+    for b in scans.bodies(F.lib):
+        if "yaserde_tests" in b["path"] or "tests::" in b["path"]:
+            continue
+        B = M.Body(b)
+        for i in sorted(B.reach):
+            for st in B.blocks[i]["stmts"]:
+                rv = st.get("rv") or {}
+                if not (st["k"] == "assign" and rv.get("k") == "aggregate" and rv.get("ak") == "adt" and str(rv.get("adt", "")).endswith("RustDocument")):
+                    continue
+                names = rv.get("fields") or []
+                if "namespace_lookup" not in names:
+                    continue
+                n_c += 1
+                op = rv["ops"][names.index("namespace_lookup")]
+                short = b["path"].rsplit("::", 1)[-1]
+                foreign = [o for o in M.trace(B, op) if o.kind in ("arg", "upvar") and "namespace_lookup" in o.fields()]
+                if foreign:
+                    ck.violation(rule, f"writer:{short}:starts-from-another-table", st.get("sp"),
+                                 f"{b['path']} builds a document whose prefix table is a copy of another document's (`{foreign[0].name}.namespace_lookup`): "
+                                 f"a prefix the other document bound is not re-bound by this document's own declaration, so its `tns:` names resolve in the "
+                                 f"other document's namespace", fn=short)
+                else:
+                    ck.ok(rule, f"constructor:{short}", st.get("sp"), "a document is built with a prefix table that is not another document's", fn=short)
+    ck.floor(rule, "constructions of a document", n_c, 1)
+
+
+CONFIRMED_NAMED_KINDS = 3
+
+
+def _named_kinds(F, ret_ty):
+    """how many kinds of named components the looked-up value can be: the variants with a payload of the enum member of the struct
+    a by-name lookup answers with (None when that cannot be read off the types)"""
+    import re as _re
+    structs = {s_["path"]: s_ for s_ in F.lib.items["structs"]}
+    enums = {e_["path"]: e_ for e_ in F.lib.items["enums"]}
+    for cand in _re.findall(r"[A-Za-z_][A-Za-z0-9_:]*", ret_ty or ""):
+        st = structs.get(cand)
+        if st is None:
+            continue
+        for fld in st["variants"][0]["fields"]:
+            en = enums.get(fld["ty"])
+            if en is not None:
+                return sum(1 for v_ in en["variants"] if v_["fields"])
+    return None
